@@ -1,2 +1,5 @@
+import Properties.C01
+import Properties.C02
 import Properties.C05
+import Properties.C16
 import Properties.Tables
